@@ -78,6 +78,11 @@ class VTime(EngineBase):
                 t2 = rng.choice(TIMEOUTS)
                 if t2 is None and plan["procs"][0]["exit"] == "never":
                     t2 = 0.1
+                if rng.random() < 0.5:
+                    # another query on the same object between two waits
+                    ops.append({"op": "poke", "m": rng.choice(
+                        ["is_running", "is_running", "status", "name",
+                         "children"])})
                 ops.append({"op": "wait", "timeout": t2})
             plan["ops"] = ops
             if rng.random() < 0.3:
@@ -209,6 +214,17 @@ class VTime(EngineBase):
                         ends[pid] = t + s["reap_lag"]
 
         for idx, op in enumerate(plan["ops"], start=1):
+            if op["op"] == "poke":
+                k.begin_op(idx)
+                try:
+                    getattr(handles[plan["procs"][0]["pid"]], op["m"])()
+                except BaseException as e:  # noqa: BLE001
+                    if is_harness_exc(e):
+                        raise
+                k.end_op()
+                probes["query_between_waits"] = probes.get(
+                    "query_between_waits", 0) + 1
+                continue
             timeout = op["timeout"]
             t0 = k.mono
             if not scheduled:
@@ -498,6 +514,7 @@ VTime.COMPONENTS = {
              "time.monotonic/time.sleep (virtual clock, discrete events)"],
 }
 VTime.PROBES = ["eintr_fired", "exit_between_last_poll_and_deadline",
+                "query_between_waits",
                 "exit_exactly_at_deadline", "ev_exit", "ev_reap"]
 
 ENGINE = VTime()
